@@ -197,6 +197,22 @@ ASMJIT_FAVOR_SIZE Error BaseEmitHelper::emit_args_assignment(const FuncFrame& fr
         uint32_t available_id = Support::ctz(available_regs);
         reg.set_signature_and_id(signature, available_id);
 
+        if (signature.reg_group() == RegGroup::kGp && !(TypeUtils::is_int(out.type_id()) && TypeUtils::is_int(cur.type_id()))) {
+          // A GP register is used to copy a value that is not an integer (float, double, small vector, ...). Copy it
+          // as an integer of the same size, otherwise `emit_arg_move()` and `emit_reg_move()` would interpret the
+          // id of the GP register as an id of a register that is required to hold such type.
+          uint32_t copy_size = TypeUtils::size_of(cur.type_id());
+          TypeId copy_type_id = copy_size <= 1 ? TypeId::kUInt8  :
+                                copy_size <= 2 ? TypeId::kUInt16 :
+                                copy_size <= 4 ? TypeId::kUInt32 : TypeId::kUInt64;
+
+          ASMJIT_PROPAGATE(emit_arg_move(reg, copy_type_id, src_stack_ptr, copy_type_id));
+          ASMJIT_PROPAGATE(emit_reg_move(dst_stack_ptr, reg, copy_type_id));
+
+          var.mark_done();
+          continue;
+        }
+
         ASMJIT_PROPAGATE(emit_arg_move(reg, out.type_id(), src_stack_ptr, cur.type_id()));
       }
 
